@@ -475,7 +475,9 @@ func (e *Engine) verifyFunction(key string) (u *Unit, err error) {
 			if len(parts) > 1 {
 				txt = exprString(part) + "   [part of: " + trunc(en.Text, 80) + "]"
 			}
+			u.curReveal = en.Reveal
 			ob := u.oblig("post", txt, implies(res.reach, g), en.Props)
+			u.curReveal = nil
 			ob.Pos = en.Where
 		}
 	}
